@@ -1,6 +1,6 @@
 //! C11 correspondence: SymExpr::{simplify, range, is_positive, eval} through the public API.
 //!
-//!   c11 gen <seed> <n> <tier>     print input lines `<seed>#<expr>` (text format of lib.rs)
+//!   c11 gen <seed> <n> <tier> [lite]   print input lines `<seed>#<expr>` (text format of lib.rs)
 //!   c11 exec                      read input lines, print `tag \t input \t coq-case`
 //!
 //! The same binary is built in release (wrapping i32 arithmetic) and debug (overflow panics);
@@ -216,10 +216,13 @@ impl Gen {
     }
 }
 
-fn generate(seed: u64, n: usize, tier: &str, out: &mut impl Write) {
+fn generate(seed: u64, n: usize, tier: &str, lite: bool, out: &mut impl Write) {
     let mut lineno: u64 = 0;
+    // `lite`: keep one third of the enumerated streams (used for the second build profile)
+    let mut sub = SplitMix64(seed ^ 0x117E);
     let mut emit = |out: &mut dyn Write, s: &str| {
         lineno += 1;
+        if lite && !sub.chance(1, 3) { return; }
         writeln!(out, "{}#{}", seed.wrapping_mul(1000003).wrapping_add(lineno), s).unwrap();
     };
     // 1. exhaustive depth <= 1 over all constants and two symbols
@@ -264,12 +267,15 @@ fn generate(seed: u64, n: usize, tier: &str, out: &mut impl Write) {
         }
     }
     // 3. random trees, depth <= 5
+    let mut emit_all = |out: &mut dyn Write, s: &str, k: u64| {
+        writeln!(out, "{}#{}", seed.wrapping_mul(1000003).wrapping_add(1_000_000 + k), s).unwrap();
+    };
     for i in 0..n {
         let mut g = Gen { rng: SplitMix64(seed.wrapping_add(0x9E37 * (i as u64 + 1))), pool: vec![], flags: [true, false, true] };
         g.flags = [g.rng.chance(3, 4), g.rng.chance(1, 2), g.rng.chance(1, 2)];
         let d = 2 + g.rng.below(4) as u32;
         let t = g.tree(d);
-        emit(out, &t);
+        emit_all(out, &t, i as u64);
     }
 }
 
@@ -282,7 +288,8 @@ fn main() {
         Some("gen") => {
             let seed: u64 = args[2].parse().unwrap();
             let n: usize = args[3].parse().unwrap();
-            generate(seed, n, &args[4], &mut out);
+            let lite = args.get(5).map(|s| s == "lite").unwrap_or(false);
+            generate(seed, n, &args[4], lite, &mut out);
         }
         Some("exec") => {
             let release = !cfg!(debug_assertions);
